@@ -116,6 +116,8 @@ def build_source(k, params, kind, group, pair_variant=None):
     sig = B.signature_source(params)
     defs = "\n".join(f"DEF_{p['name']} = 'DEF_{p['name']}'" for p in params if p["default"])
     cbname = f"{group}_go" if kind in NAMED_KINDS else f"cb_{k}"
+    if group in ("enter", "exit"):
+        cbname = "on_enter_s1" if group == "enter" else "on_exit_s0"      # state-scoped convention callbacks
     guard = GUARD_FORMS.get(group)
     if guard:
         cbname = f"chk_{k}" if kind in NAMED_KINDS else cbname
@@ -194,7 +196,7 @@ class Tagger:
 
 def expected_available(shape, event, src, dst, group):
     kw = {k: v for k, v in shape["ukw"].items()}
-    state = dst if group == "after" else src
+    state = dst if group in ("after", "enter") else src
     kw.update({
         "event_data": "<event_data>", "machine": "<machine>", "event": f"<event:{event}>", "model": "<model>",
         "transition": f"<transition:{src}->{dst}>", "state": f"<state:{state}>", "source": f"<state:{src}>",
@@ -223,6 +225,8 @@ def run_one(rng, counters, violations, sigs, samples, kind=None, params=None, sh
     params = params or gen_signature(rng)
     kind = kind or rng.choice(KINDS)
     group = group or (rng.choice(["before", "on", "after"]) if rng.random() < 0.7 else rng.choice(sorted(GUARD_FORMS)))
+    if group in ("before", "on", "after") and kind in NAMED_KINDS and rng.random() < 0.2:
+        group = rng.choice(["enter", "exit"])
     if group in GUARD_FORMS and kind in ("async_method", "async_partial") and group not in ("cond", "unless", "validators"):
         kind = "method" if kind == "async_method" else "partial"          # coroutine names inside expressions are a recorded finding (W13), not C07's subject
     if group in GUARD_FORMS and kind in ("func", "classfunc") and group not in ("cond", "unless", "validators", "cond_list"):
